@@ -7,7 +7,7 @@ from harness.common import cps, uncps
 from harness.props.c01 import all_texts
 from harness.props import c03
 
-BRIDGE = ('Gemato.Bridge.Tree',)
+BRIDGE = ('Gemato.Bridge.Tree', 'Gemato.Bridge.SrcUpdate', 'Gemato.Bridge.SrcVerify', 'Gemato.Bridge.SrcLoader')
 PROPS = ['Gemato.Props.C10']
 
 
